@@ -37,8 +37,13 @@ def eval_mtx_helpers(env):
     env.eq("C01", "_compute_finite_vortex_deriv2(r1,r2,D) == (d f/d r2) D", env.call(E._compute_finite_vortex_deriv2, r1, r2, D), xp.dot(J2, D) if not env.sym else _mm(J2, D))
     env.eq("C01", "antisymmetry lemma: _compute_finite_vortex(r1, r2) == -_compute_finite_vortex(r2, r1)",
            env.call(E._compute_finite_vortex, r1, r2), -env.call(E._compute_finite_vortex, r2, r1))
+    Sm = np.array([1, -1, 1])
+    env.eq("C01", "reflection lemma: _compute_finite_vortex(S r1, S r2) == -S _compute_finite_vortex(r1, r2), S = diag(1,-1,1)",
+           env.call(E._compute_finite_vortex, Sm * r1, Sm * r2), -Sm * env.call(E._compute_finite_vortex, r1, r2))
     u = env.var("u", (3,))
     r = env.var("r", (3,))
+    env.eq("C01", "reflection lemma: _compute_semi_infinite_vortex(S u, S r) == -S _compute_semi_infinite_vortex(u, r)",
+           env.call(E._compute_semi_infinite_vortex, Sm * u, Sm * r), -Sm * env.call(E._compute_semi_infinite_vortex, u, r))
     Jr = env.deriv(lambda t: E._compute_semi_infinite_vortex(u, t), r)
     env.eq("C01", "_compute_semi_infinite_vortex_deriv(u,r,D) == (d f/d r) D", env.call(E._compute_semi_infinite_vortex_deriv, u, r, D), xp.dot(Jr, D) if not env.sym else _mm(Jr, D))
 
